@@ -104,7 +104,7 @@ func (x *Exec) inlineCall(st *State, in *ssa.Call, f *ssa.Function, args []Val) 
 		return false // every path through the callee ended (panic): nothing to continue
 	}
 	merged := collected
-	if x.noMergeTop && len(st.frames) == 0 {
+	if x.noMergeAll || (x.noMergeTop && len(st.frames) == 0) {
 		// relational runs: keep the paths through the top-level helpers apart
 	} else if c := x.P.Specs.Contracts[qualName(f)]; c == nil || !c.NoMerge {
 		merged = x.mergeGroups(collected, in, len(st.dec))
@@ -413,7 +413,16 @@ func (x *Exec) wantsClause(e *Clause) bool {
 	if e.Prop == "" || x.c == nil {
 		return true
 	}
-	return hasProp(x.c, e.Prop)
+	if hasProp(x.c, e.Prop) {
+		return true
+	}
+	// the clauses of a property assembled from others may rely on those others' callee postconditions
+	for _, q := range includes[x.onlyProp] {
+		if q == e.Prop {
+			return true
+		}
+	}
+	return false
 }
 
 func (x *Exec) isFrozen(h string) bool {
